@@ -28,6 +28,7 @@ EXHAUSTIVE = {
     "quick": {"stored orders of each operand with <= 3 nonzeros (up to 6x6 order pairs)": "complete"},
     "thorough": {"stored orders of each operand with <= 4 nonzeros (up to 24x24 order pairs)": "complete"},
 }
+THOROUGH_PASSES = 2     # the thorough generator of this property is already minutes long
 WATCHDOG = {"quick": 900, "thorough": 3400}
 
 BINOPS = ["__add__", "__sub__", "__mul__", "__truediv__", "__eq__", "__ne__", "__lt__", "__le__", "__gt__", "__ge__",
